@@ -1083,18 +1083,24 @@ impl<'t, F: CKind> CSession<'t, F> {
         };
         let c_err = Self::take_err(err);
         let c_size = std::fs::metadata(&cpath).map(|m| m.len()).unwrap_or(0);
+        // an invalid function is skipped together with its name
         let valid_roots: Vec<Arg> = roots.iter().copied().filter(|a| a.is_some()).collect();
+        let valid_names: Vec<String> =
+            roots.iter().enumerate().filter(|(_, a)| a.is_some()).map(|(i, _)| format!("f{i}")).collect();
         let (r_ok, r_size) = match self.rargs(&valid_roots) {
             Some(fs) => {
-                let named: Vec<(&F, String)> = fs.into_iter().enumerate().map(|(i, f)| (f, format!("f{i}"))).collect();
+                let named: Vec<(&F, String)> = fs.into_iter().zip(valid_names.iter().cloned()).collect();
                 let r = catch(|| F::r_dot(self.rm(), &rpath, &named));
                 (matches!(r, Ok(Ok(()))), std::fs::metadata(&rpath).map(|m| m.len()).unwrap_or(0))
             }
             None => (false, 0),
         };
         // a DOT dump skips invalid functions (documented for neither variant: accepted either way)
+        // projection of the two files: the function boxes (label, node pointed to), in file order
+        let c_labels = if c_ok { dot_labels(&cpath) } else { Vec::new() };
+        let r_labels = if r_ok { dot_labels(&rpath) } else { Vec::new() };
         self.out.emit(json!({"ev":"io","what":what,"a":arg_json(roots),"named":true,"inv_in":false,"c_ok":c_ok,"c_err":c_err,
-            "c_size":c_size,"r_ok":r_ok,"r_size":r_size,"same_bytes":false}));
+            "c_size":c_size,"r_ok":r_ok,"r_size":r_size,"same_bytes":false,"c_labels":c_labels,"r_labels":r_labels}));
         self.after_call();
     }
 
@@ -1286,4 +1292,29 @@ pub fn bin_call<F: BooleanFunction>(op: &str, a: &F, b: &F) -> AllocResult<F> {
         "imp_strict" => a.imp_strict(b),
         _ => panic!("harness: unknown op {op}"),
     }
+}
+
+/// function boxes of a DOT dump: `[label, node the box points to]` in file order
+fn dot_labels(path: &str) -> Vec<[String; 2]> {
+    let text = std::fs::read_to_string(path).unwrap_or_default();
+    let mut boxes: Vec<(String, String)> = Vec::new(); // (box id, label)
+    let mut target: std::collections::HashMap<String, String> = Default::default();
+    for line in text.lines() {
+        let t = line.trim_start();
+        if !t.starts_with('f') {
+            continue;
+        }
+        let Some(sp) = t.find(' ') else { continue };
+        let (id, rest) = t.split_at(sp);
+        let rest = rest.trim_start();
+        if let Some(r) = rest.strip_prefix("[label=\"") {
+            if let Some(end) = r.rfind("\", shape=box]") {
+                boxes.push((id.to_string(), r[..end].to_string()));
+            }
+        } else if let Some(r) = rest.strip_prefix("-> ") {
+            let node = r.split(' ').next().unwrap_or("").to_string();
+            target.entry(id.to_string()).or_insert(node);
+        }
+    }
+    boxes.into_iter().map(|(id, label)| [label, target.get(&id).cloned().unwrap_or_default()]).collect()
 }
